@@ -14,7 +14,9 @@ with driver.Lock():
         print("translator", name, "ok" if ok else "FAILED", o.strip()[-300:])
     driver.ensure_makefile()
 PY
-(cd coq && timeout 7200 make -j16 > ../build/setup_make.log 2>&1) || { tail -50 build/setup_make.log; echo "coq build failed"; exit 1; }
+# -k: one property's broken file must not keep the others from being built; every check
+# re-runs make on its own targets and reports a broken build for its property
+(cd coq && timeout 7200 make -k -j16 > ../build/setup_make.log 2>&1) || { grep -B2 -A12 "Error" build/setup_make.log | tail -60; echo "warning: some Coq files did not build (see build/setup_make.log)"; }
 cp /repo/go.sum harness/go.sum
 for d in harness/c[0-9][0-9]; do
   p=$(basename $d)
